@@ -146,7 +146,8 @@ V: List[Tuple[str, str, str, str, Any, Any, Optional[str]]] = [
     ("C19", "cache_component_js moved behind a condition", "breaking", S + "component.py", "        cache_component_js(self.__class__)\n", "        if js_data:\n            cache_component_js(self.__class__)\n", "S1"),
     ("C19", "different key order in the reader", "breaking", S + "dependencies.py", "    cache_key = _gen_cache_key(comp_cls._class_hash, script_type, input_hash)\n    script = cache.get(cache_key)", "    cache_key = _gen_cache_key(comp_cls._class_hash, input_hash, script_type)\n    script = cache.get(cache_key)", "S2"),
     ("C19", "URL kwarg renamed on one side", "breaking", S + "dependencies.py", "            \"comp_cls_hash\": comp_cls._class_hash,", "            \"cls_hash\": comp_cls._class_hash,", "S3"),
-    ("C19", "405 test after the lookup", "breaking", S + "dependencies.py", "    if req.method != \"GET\":\n        return HttpResponseNotAllowed([\"GET\"])\n\n    comp_cls = comp_hash_mapping.get(comp_cls_hash)", "    comp_cls = comp_hash_mapping.get(comp_cls_hash)\n    if req.method != \"GET\":\n        return HttpResponseNotAllowed([\"GET\"])\n", "S4"),
+    ("C19", "405 test after the lookup", "breaking", S + "dependencies.py", "    if req.method != \"GET\":\n        return HttpResponseNotAllowed([\"GET\"])\n\n    if script_type not in _CONTENT_TYPES:\n        return HttpResponseNotFound()\n\n    comp_cls = comp_hash_mapping.get(comp_cls_hash)", "    if script_type not in _CONTENT_TYPES:\n        return HttpResponseNotFound()\n\n    comp_cls = comp_hash_mapping.get(comp_cls_hash)\n    if req.method != \"GET\":\n        return HttpResponseNotAllowed([\"GET\"])\n", "S4"),
+    ("C19", "kind validation dropped", "breaking", S + "dependencies.py", "    if script_type not in _CONTENT_TYPES:\n        return HttpResponseNotFound()\n\n    comp_cls = comp_hash_mapping", "    comp_cls = comp_hash_mapping", "S4"),
     ("C19", "comment", "preserving", S + "dependencies.py", "    script = get_script_content(script_type, comp_cls, input_hash)\n    if script is None:", "    script = get_script_content(script_type, comp_cls, input_hash)  # from the media cache\n    if script is None:", None),
 ]
 
